@@ -17,6 +17,7 @@ type sessionEngine struct{}
 func init() {
 	engines["C05"] = sessionEngine{}
 	engines["C06"] = c06Engine{}
+	engines["C09"] = sessionEngine{}
 }
 
 // c06Engine runs the real-server session batches and the scripted-healthy-peer batches.
@@ -63,6 +64,8 @@ func sessionOptsFor(batch string) SessionOpts {
 		return SessionOpts{MaxCallers: 4, MaxCalls: 3, BadInputs: true, UnknownStep: true, BigPayloads: true, RichSchemas: true, SlowSteps: true, Latency: true}
 	case "c05.signals":
 		return SessionOpts{MaxCallers: 3, MaxCalls: 3, Signals: true, BadInputs: true, BigPayloads: true, SlowSteps: true}
+	case "c09.session":
+		return SessionOpts{MaxCallers: 2, MaxCalls: 3, Signals: true, BadInputs: true, RichSchemas: true, BigPayloads: true}
 	case "c05.misbehave":
 		return SessionOpts{MaxCallers: 3, MaxCalls: 2, Misbehave: true, BadInputs: true, BigPayloads: true}
 	}
@@ -137,6 +140,9 @@ func (sessionEngine) Run(t *testing.T, batch string, tape *rt.Tape, runIdx uint6
 		}, &rec)
 	}
 	plan := PlanSession(tape, opts)
+	if strings.HasPrefix(batch, "c09.") {
+		plan.Features["c09"] = true
+	}
 	strat, stratName = drawStrategy(tape)
 	return runSessionPlan(t, plan, tape, strat, stratName, sample, trace, nil, &rec)
 }
@@ -244,6 +250,9 @@ func runSessionPlan(t *testing.T, plan *SessionPlan, tape *rt.Tape, strat rt.Str
 	}
 	_ = time.Minute
 	rec.Violations = JudgeSession(plan, obs, out)
+	if plan.Features["c09"] && !out.Deadlock && len(out.Panics) == 0 {
+		rec.Violations = append(rec.Violations, JudgeHelloFidelity(plan, obs, out)...)
+	}
 	if len(rec.Violations) > 0 {
 		rec.Outcome = "violation"
 	} else {
